@@ -349,18 +349,24 @@ class SimpleHeatPumpCycle:
 
         """Solve a basic four-state cycle given inlet/outlet temperatures and pressures."""
         # Evaporator outlet / IHX inlet
-        self._compute_state_from_pressure_temperature(
-            p=p0, 
-            T=T0,            
-        )
+        if dT_sh > 0:
+            self._compute_state_from_pressure_temperature(
+                p=p0, 
+                T=T0,            
+            )
+        else:
+            # Saturated vapour: a (p, T) flash exactly on the saturation line is ambiguous and
+            # returns the liquid root at low pressures (e.g. water below ~1 kPa).
+            self._state.update(CoolProp.PQ_INPUTS, p0, 1.0)
         h_ihx_in = self._state.hmass()
         self._save_cycle_state(0)
 
-        # IHX outlet / compressor inlet
-        self._compute_state_from_pressure_temperature(
-            p=p0, 
-            T=T0 + self._ihx_gas_dt,
-        )      
+        # IHX outlet / compressor inlet (same state as above when nothing is added to a saturated vapour)
+        if dT_sh > 0 or self._ihx_gas_dt != 0:
+            self._compute_state_from_pressure_temperature(
+                p=p0, 
+                T=T0 + self._ihx_gas_dt,
+            )      
         dh_ihx = self._state.hmass() - h_ihx_in
 
         # Compressor discharge (real)
